@@ -749,6 +749,7 @@ int main(int argc, char **argv)
 		if (thorough) { cells_full(0, 0); PHASE(1); cells_pairwise(1, 0); PHASE(2); }
 	}
 	xp_init(hc_san_as ? hc_san_as : PROP, a.tier, 1 << 22, a.budget_s);
+	xp_guard(hc_san_as, &W.cur, 1);
 	if (a.replay) {
 		int j = xp_load_replay(a.replay);
 		for (int p = 0; p < nph; p++) if (j >= PH[p].first && j < PH[p].first + PH[p].count) BUDGET = PH[p].budget;
